@@ -299,7 +299,7 @@ func Message(r *rand.Rand, counter int) (string, string) {
 func Identity(r *rand.Rand) (name, email, class string) {
 	names := []struct{ n, c string }{
 		{"Alice", "plain"}, {"Alice B. Carol", "spaces"}, {"José Núñez", "non-ascii"}, {"山田 太郎", "non-ascii"},
-		{"O'Neil", "quote"}, {"a>b", "gt"}, {"Q> A team", "gt-space"}, {"a > b > c", "gt-space"}, {"x>", "gt"}, {"> lead", "gt-space"}, {"Mr 100% X", "percent"}, {"Ann  Lee", "double-space"}, {"a   b  c", "double-space"}, {"%s %d", "percent-verbs"}, {"Dr. X (PhD)", "paren"}, {"x=y", "equals"}, {"#1 dev", "hash"}, {"[bot]", "bracket"},
+		{"O'Neil", "quote"}, {"a>b", "gt"}, {"Q> A team", "gt-space"}, {"Ren\ufffde M\ufffdller", "replacement-char"}, {"\ufffd", "replacement-char"}, {"50%% off", "percent"}, {"100% sure Jun", "percent"}, {"a > b > c", "gt-space"}, {"x>", "gt"}, {"> lead", "gt-space"}, {"Mr 100% X", "percent"}, {"Ann  Lee", "double-space"}, {"a   b  c", "double-space"}, {"%s %d", "percent-verbs"}, {"Dr. X (PhD)", "paren"}, {"x=y", "equals"}, {"#1 dev", "hash"}, {"[bot]", "bracket"},
 	}
 	emails := []string{"a@example.com", "first.last@sub.example.org", "x_y+tag@a-b.co", "u@d.io", "A.B-c@x1.y2.museum"}
 	n := pick(r, names)
